@@ -688,8 +688,11 @@ func c22Scenarios(r *vrt.R, th bool) []mcx.Scenario {
 			me := cg
 			me.Kind = kd
 			pb := vrt.Pick(r, 1, 3)
-			if ci == 0 {
+			switch ci {
+			case 0:
 				pb = vrt.Pick(r, 2, 3)
+			case 1, 3: // thorough only: the same gzipBody/deflateBody as through CompressHandlerLevel
+				pb = 2
 			}
 			add(fmt.Sprintf("handler/%s/%s+pool-user/cap1", name, c22KindNames[kd]), pb, c22HandlerMixBody(1, []c22hspec{me, {Kind: c22KPoolUser}}, false), c22HandlerLoadCheck)
 		}
